@@ -44,7 +44,7 @@ Definition kv_attrs_eqb (h : hdecl) (id : string) (cls : hclass) (rsn : option r
 CHANGING_KINDS = ('resume', 'resume_del', 'create', 'update', 'delete', 'delete_opt', 'field')
 UPDATE_KINDS = ('update', 'field')           # the decorators which accept old=/new= and require "the field changed"
 KIND_CLASS = {**{k: 'changing' for k in CHANGING_KINDS}, 'event': 'watching', 'daemon': 'spawning', 'timer': 'spawning',
-              'index': 'indexing'}
+              'index': 'indexing', 'sub': 'changing'}
 HANDLER_REASONS = ('create', 'update', 'delete', 'resume')
 ALL_REASONS = HANDLER_REASONS + ('noop', 'free', 'gone')
 
@@ -68,7 +68,14 @@ def n_criteria(d: dict) -> int:
 
 def real_id(d: dict) -> str:
     """The id as documented: the field name is part of the handler id ("fn/spec.field"); not for indices."""
+    if d['kind'] == 'sub':          # "create/task_abc": the parent's id is the prefix; the field is not part of it
+        return f"{d['parent_id']}/{d['id']}"
     return d['id'] if d['kind'] == 'index' or not d['field'] else f"{d['id']}/{d['field']}"
+
+
+def is_update_kind(d: dict) -> bool:
+    """@on.update / @on.field, and the sub-handlers declared inside them (they are part of the update's reaction)."""
+    return d['kind'] in UPDATE_KINDS or (d['kind'] == 'sub' and d['parent_kind'] in UPDATE_KINDS)
 
 
 # ---- callbacks: by name, identical meaning on the three sides (real python fn / Coq term / spec evaluator)
@@ -270,13 +277,15 @@ def decl_coq(d: dict) -> str:
 class Real:
     """A real kopf registry populated through the real decorators from declarations."""
 
-    def __init__(self, decls: list[dict], recorder: list | None = None, fail_fns: Iterable[int] = ()) -> None:
+    def __init__(self, decls: list[dict], recorder: list | None = None, fail_fns: Iterable[int] = (),
+                 fn_override: dict[int, Callable] | None = None) -> None:
         import kopf
         from kopf._core.intents import registries
         self.registry = registries.OperatorRegistry()
         self.fns: dict[int, Callable] = {}
         self.decls = decls
         self.fail_fns = frozenset(fail_fns)
+        self.fns.update(fn_override or {})
         for d in decls:
             fn = self.fns.get(d['fn'])
             if fn is None:
@@ -427,7 +436,7 @@ def spec_static(d: dict, s: dict, old_counts: bool = False) -> bool:
     if d['field'] is not None:
         # "When the value= filter is not specified, but the field= filter is, it is equivalent to value=kopf.PRESENT"
         vc = d['value'] if d['value'] is not None else 'PRESENT'
-        if d['kind'] in UPDATE_KINDS and s['cls'] == 'changing':
+        if is_update_kind(d) and s['cls'] == 'changing':
             # "The value= filter applies to either the old or the new value"
             old = _lookup(s['old'], d['field']) if s['old'] is not None else ABSENT
             new = _lookup(s['new'], d['field']) if s['new'] is not None else ABSENT
@@ -447,7 +456,7 @@ def spec_static(d: dict, s: dict, old_counts: bool = False) -> bool:
 def spec_transition(d: dict, s: dict) -> bool:
     """Update handlers (@on.update, @on.field) with a field: the field is affected in any way (changed, added, removed),
     and old=/new= are checked separately, an unspecified part is not checked."""
-    if d['kind'] not in UPDATE_KINDS or d['field'] is None or s['cls'] != 'changing':
+    if not is_update_kind(d) or d['field'] is None or s['cls'] != 'changing':
         return True
     old = _lookup(s['old'], d['field']) if s['old'] is not None else ABSENT
     new = _lookup(s['new'], d['field']) if s['new'] is not None else ABSENT
@@ -471,7 +480,7 @@ def spec_kind(d: dict, s: dict) -> bool:
         # resuming handlers are mixed into whatever happens to a not-yet-resumed object;
         # not for objects being deleted unless deleted=True
         return s['initial'] and (k == 'resume_del' or not spec_deleting(s['body']))
-    if k == 'field':
+    if k in ('field', 'sub'):       # a sub-handler runs whenever its parent does
         return True
     return {'create': 'create', 'update': 'update', 'delete': 'delete', 'delete_opt': 'delete'}[k] == s['reason']
 
@@ -529,13 +538,15 @@ def wellformed(s: dict) -> bool:
 def _reproduced(f: dict, old_counts: bool) -> bool:
     """Re-reading the docs with the defect's twist reproduces the observation exactly (and the plain reading does not)."""
     c = f['case']
-    decls = c['decls']
+    decls = c.get('decls', [])
     if f['sig'] == 'selected-set':
         s = c['state']
         return list(f['observed']) == spec_selected(decls, s, c.get('excluded', ()), old_counts)
     if f['sig'] == 'scope':
         s = c['state']
         return bool(f['observed']) == spec_in_scope(decls, s, old_counts) != spec_in_scope(decls, s)
+    if f['sig'] == 'sub-invoked':
+        return list(f['observed']) == sub_expected(c['parent'], c['subs'], c['sub_state'], old_counts)
     if f['sig'] in ('stealth', 'invoked'):
         body = c['body']
         if f['sig'] == 'stealth':
@@ -559,7 +570,7 @@ META_CRITS2 = [None, 'PRESENT', 'ABSENT', ['val', 'v']]
 LABEL_STATES = [ABSENT, 'v', 'w', '']
 FIELD_CRITS = [None, ['val', 1], ['val', 2], 'PRESENT', 'ABSENT', ['cb', 'is_none'], ['cb', ['eq', 1]]]
 WHENS = [None, 'T', 'F']
-ALL_KINDS = list(KIND_CLASS)
+ALL_KINDS = [k for k in KIND_CLASS if k != 'sub']
 
 
 def meta_decls() -> list[dict]:
@@ -774,7 +785,7 @@ R_SELS = [SEL_KEX] * 6 + [['any', 'kex'], ['any', 'KopfExample'], ['any', 'kopfe
 
 
 def gen_decls(r: Any, cls: str) -> list[dict]:
-    kinds = [k for k, c in KIND_CLASS.items() if c == cls]
+    kinds = [k for k, c in KIND_CLASS.items() if c == cls and k != 'sub']
     n = r.choice([1, 2, 3, 3, 4, 5, 6])
     out: list[dict] = []
     for j in range(n):
@@ -1205,6 +1216,9 @@ def run(ctx: fw.Ctx) -> int:
     # ---------- the decision skeleton of process_resource_causes against the real coroutine ----------
     cycle_tie(ctx, ctx.scale(500, 6000))
 
+    # ---------- sub-handlers: the real decorator inside a running parent, and which of them run ----------
+    sub_tie(ctx)
+
     # ---------- end to end: process_resource_event with a recording API ----------
     e2e(ctx, ctx.scale(250, 2500))
 
@@ -1488,6 +1502,216 @@ def cycle_tie(ctx: fw.Ctx, n: int) -> None:
     ctx.differential('cycle', HEADER, cases, shard=120)
 
 
+# --------------------------------------------------------------------------------------------------
+# Sub-handlers: the real @kopf.subhandler inside a really running parent (process_resource_causes -> execute_handlers_once ->
+# invoke_handler -> subhandling_context -> the parent function -> the decorator -> implicit execute())
+# --------------------------------------------------------------------------------------------------
+def sub_decl(parent: dict, id: str, fn: int, **kw: Any) -> dict:
+    d = decl('sub', id, fn, **kw)
+    d['parent_kind'], d['parent_id'] = parent['kind'], real_id(parent)
+    return d
+
+
+def sub_coq(parent: dict, d: dict) -> str:
+    fld = 'None' if d['field'] is None else f"(Some {cq.cpath(d['field'].split('.'))})"
+    pat = lambda m: cq.clist(cq.cpair(cq.cstr(k), _crit_coq(v)) for k, v in m.items())
+    return (f"(sub_decorate {decl_coq(parent)} {cq.cstr(d['id'])} {cq.cnat(d['fn'])} {pat(d['labels'])} {pat(d['annotations'])} "
+            f"{_when_coq(d['when'])} {fld} {_crit_coq(d['value'])} {_crit_coq(d['old'])} {_crit_coq(d['new'])})")
+
+
+def sub_alphabet(parent: dict) -> list[dict]:
+    out: list[dict] = []
+    def add(**kw: Any) -> None:
+        out.append(sub_decl(parent, f's{len(out) + 1}', len(out) + 1, **kw))
+    add()
+    add(field='spec.f')
+    for v in (['val', 1], ['val', 2], 'PRESENT', 'ABSENT', ['cb', 'is_none']):
+        add(field='spec.f', value=v)
+    for o, n in ((None, ['val', 2]), (['val', 1], None), ('PRESENT', 'ABSENT'), ('ABSENT', 'PRESENT'), (['val', 1], ['val', 2]),
+                 (None, ['val', 0])):
+        add(field='spec.f', old=o, new=n)          # accepted only under @on.update / @on.field parents: TypeError otherwise
+    add(field='spec.g')
+    add(labels={'l1': ['val', 'v']})
+    add(annotations={'a1': 'ABSENT'}, field='spec.f')
+    add(when='F')
+    add(when=['spec_eq', 'g', 0], field='spec.f', value='PRESENT')
+    return out
+
+
+def _narrow(o: Any, dotted: str | None) -> Any:
+    """What a sub-handler sees as old/new under a parent with a field: that field (None when absent or null)."""
+    if dotted is None or o is None:
+        return o
+    v = _lookup(o, dotted)
+    return None if v is ABSENT else v
+
+
+def sub_expected(parent: dict, subs: list[dict], s: dict, old_counts: bool = False) -> list[int]:
+    """Docs: a sub-handler is a handler of the parent's reaction: it runs when the parent runs and its own filters hold;
+    inside @on.update/@on.field that includes 'the field is affected'."""
+    return [d['fn'] for d in subs if spec_static(d, s, old_counts) and spec_transition(d, s)]
+
+
+def sub_scenarios() -> list[dict]:
+    out = []
+    fvals = [ABSENT, 1, 2]
+    def body_of(f: Any, g: int, **meta: Any) -> dict:
+        spec: dict = {'g': g}
+        if f is not ABSENT:
+            spec['f'] = f
+        return {'apiVersion': 'kopf.dev/v1', 'kind': 'KopfExample',
+                'metadata': {'name': 'x', 'namespace': 'ns', 'uid': 'u1', 'resourceVersion': '5', 'labels': {'l1': 'v'}, **meta},
+                'spec': spec}
+    for pk, pfield in (('update', None), ('field', None), ('update', 'spec'), ('field', 'spec.f')):
+        for fo in fvals:
+            for fn_ in fvals:
+                g_old = 0 if (fo is ABSENT) != (fn_ is ABSENT) or fo != fn_ else 7      # always an essential change
+                out.append({'parent': decl(pk, 'p', 0, field=pfield), 'body': body_of(fn_, 0), 'handled': body_of(fo, g_old),
+                            'event': 'MODIFIED', 'noticed': False})
+    for pk in ('create', 'field'):
+        for f in fvals:
+            out.append({'parent': decl(pk, 'p', 0), 'body': body_of(f, 0), 'handled': None, 'event': 'ADDED', 'noticed': False})
+    for pk in ('delete', 'delete_opt', 'resume_del'):
+        for fo, fn_ in ((1, 1), (1, 2), (ABSENT, 1)):
+            out.append({'parent': decl(pk, 'p', 0), 'handled': body_of(fo, 0),
+                        'body': body_of(fn_, 0, deletionTimestamp='2020-01-01T00:00:00Z', finalizers=[FINALIZER]),
+                        'event': None, 'noticed': True})
+    for pk in ('resume', 'resume_del'):
+        for f in (ABSENT, 1):
+            out.append({'parent': decl(pk, 'p', 0), 'body': body_of(f, 0), 'handled': body_of(f, 0), 'event': None, 'noticed': True})
+    out.append({'parent': decl('event', 'p', 0), 'body': body_of(1, 0), 'handled': None, 'event': 'ADDED', 'noticed': False})
+    return out
+
+
+def sub_case(ctx: fw.Ctx, loop: Any, sc: dict) -> list[fw.Case]:
+    import kopf
+    from kopf._core.reactor import subhandling
+    parent = sc['parent']
+    subs = sub_alphabet(parent)
+    recorder: list = []
+    seen: dict = {'accepted': [], 'rejected': {}, 'handlers': None, 'ran': False}
+    subfns = {d['fn']: Real._mkfn(d['fn'], recorder) for d in subs}
+
+    async def parent_fn(**kwargs: Any) -> None:
+        recorder.append((0, kwargs.get('reason'), None, None, 'event' in kwargs))
+        seen['ran'] = True
+        for d in subs:
+            try:
+                kopf.subhandler(id=d['id'], when=_when_real(d['when']), field=d['field'], value=_crit_real(d['value']),
+                                old=_crit_real(d['old']), new=_crit_real(d['new']),
+                                labels={k: _crit_real(v) for k, v in d['labels'].items()} or None,
+                                annotations={k: _crit_real(v) for k, v in d['annotations'].items()} or None)(subfns[d['fn']])
+                seen['accepted'].append(d['fn'])
+            except (TypeError, ValueError) as e:
+                seen['rejected'][d['fn']] = canon.classify_exc(e)
+        try:
+            seen['handlers'] = list(subhandling.subregistry_var.get().get_all_handlers())
+        except LookupError:
+            seen['handlers'] = []
+    parent_fn.__name__ = parent_fn.__qualname__ = 'parent_fn'
+
+    real = Real([parent], recorder, fn_override={0: parent_fn})
+    extra = set()
+    for reg in (real.registry._watching, real.registry._changing, real.registry._spawning):
+        extra |= reg.get_extra_fields(resource=_res_real(RES_KEX))
+    extra |= {('spec', 'f'), ('spec', 'g')}
+    body = _with_last_handled(sc['body'], sc['handled'], extra)
+    obs = loop.run_until_complete(asyncio.wait_for(_drive_causes(
+        real, RES_KEX, body, sc['event'], noticed=sc['noticed'], forever=[], carried={}, spawn_delays=[], recorder=recorder), 30))
+    ctx.cov['traces_validated_against_impl'] += 1
+    cases: list[fw.Case] = []
+    pk = parent['kind'] + ('[' + parent['field'] + ']' if parent['field'] else '')
+    if obs['outcome'] != 'ok':
+        ctx.correspondence_break('sub: the parent\'s cycle failed', {'scenario': sc, 'obs': obs.get('outcome')})
+        return cases
+    if not seen['ran']:
+        # the parent itself does not match (e.g. its own field did not change): then no sub-handler may run either
+        ctx.count('sub_invoked', f"{pk}:{obs['cause'].reason.value if obs['cause'] is not None else '-'}:parent not invoked")
+        if [x for x in obs['ccalls'] if x != 0]:
+            ctx.fail('a sub-handler ran although its parent did not', {'parent': parent, 'scenario': {k: v for k, v in sc.items() if k != 'parent'},
+                     'subs': subs, 'sub_state': None}, observed=obs['ccalls'], expected=[], sig='sub-invoked')
+        return cases
+    P = decl_coq(parent)
+    # ---- (1) the decorator: accepted / rejected, and the constants of every record it built
+    handlers = seen['handlers'] or []
+    if len(handlers) != len(seen['accepted']):
+        ctx.correspondence_break('sub: registry of the parent', {'accepted': seen['accepted'], 'registered': len(handlers)})
+        return cases
+    by_fn = dict(zip(seen['accepted'], handlers))
+    for d in subs:
+        acc = d['fn'] in by_fn
+        data = {'parent': parent, 'sub': d, 'accepted': acc, 'rejected_with': seen['rejected'].get(d['fn'])}
+        cases.append(fw.Case(f"Bool.eqb (sub_allowed {P} {_crit_coq(d['old'])} {_crit_coq(d['new'])}) {cq.cbool(acc)}", data,
+                             diag=f"sub_allowed {P} {_crit_coq(d['old'])} {_crit_coq(d['new'])}"))
+        ctx.count('sub_decorator', f"{pk}:{'accepted' if acc else 'TypeError'}")
+        if not acc:
+            continue
+        h = by_fn[d['fn']]
+        rsn = getattr(h, 'reason', None)
+        rs = 'None' if rsn is None else f'(Some R{str(rsn.value).capitalize()})'
+        b = lambda a: cq.cbool(bool(getattr(h, a, None)))
+        ok_shape = (type(h).__name__ == 'ChangingHandler' and h.selector is None
+                    and (h.field or None) == (tuple(d['field'].split('.')) if d['field'] else None)
+                    and (h.old is None) == (d['old'] is None) and (h.new is None) == (d['new'] is None)
+                    and (h.value is None) == (d['value'] is None) and (h.when is None) == (d['when'] is None)
+                    and set(h.labels or {}) == set(d['labels']) and set(h.annotations or {}) == set(d['annotations'])
+                    and h.errors is None and h.timeout is None and h.retries is None and h.backoff is None)
+        if not ok_shape:
+            ctx.correspondence_break('sub: handler record', {'sub': d, 'handler': repr(h)})
+        cases.append(fw.Case(f"kv_attrs_eqb {sub_coq(parent, d)} {cq.cstr(h.id)} HChanging {rs} {b('initial')} {b('deleted')} "
+                             f"{b('requires_finalizer')} {b('field_needs_change')}", {**data, 'handler_id': h.id},
+                             diag=f'kv_attrs {sub_coq(parent, d)}'))
+        if h.id != real_id(d):
+            ctx.fail('sub-handler id is not <parent id>/<id>', data, observed=h.id, expected=real_id(d), sig='handler-id')
+    if KIND_CLASS[parent['kind']] != 'changing':
+        return cases
+    # ---- (2) which sub-handlers were invoked in the parent's cycle
+    cause = obs['cause']
+    called = [x for x in obs['ccalls'] if x != 0]
+    accepted = [d for d in subs if d['fn'] in by_fn]
+    o = lambda v: 'None' if v is None else f'(Some {cq.cjson(dict(v))})'
+    C = (f"{{| c_class := CChanging; c_resource := {_res_coq(RES_KEX)}; c_body := {cq.cjson(body)}; c_old := {o(cause.old)}; "
+         f"c_new := {o(cause.new)}; c_reason := R{cause.reason.value.capitalize()}; c_initial := {cq.cbool(bool(cause.initial))} |}}")
+    S = cq.clist(sub_coq(parent, d) for d in accepted)
+    term = (f"match get_handlers [] {S} (adjust_cause {P} {C}) with Ok l => nat_list_eqb (fns_of l) "
+            f"{cq.clist(cq.cnat(x) for x in called)} | _ => false end")
+    sub_state = state('changing', body, reason=cause.reason.value, initial=bool(cause.initial),
+                      old=_narrow(None if cause.old is None else dict(cause.old), parent['field']),
+                      new=_narrow(None if cause.new is None else dict(cause.new), parent['field']))
+    case = {'parent': parent, 'subs': accepted, 'scenario': {k: v for k, v in sc.items() if k != 'parent'}, 'sub_state': sub_state}
+    cases.append(fw.Case(term, {**case, 'called': called}, diag=f"rids (get_handlers [] {S} (adjust_cause {P} {C}))"))
+    ctx.count('sub_invoked', f"{pk}:{cause.reason.value}:{len(called)}/{len(accepted)}")
+    for d in accepted:
+        ctx.cov['evaluations'] += 1
+        if d['field'] and (d['fn'] in called) != (sub_alphabet(parent)[0]['fn'] in called):
+            ctx.nontriv(['sub', parent, d, sc['body']['spec'], (sc['handled'] or {}).get('spec')])
+    if parent['field'] is None:
+        # ---- monitor (docs): invoked iff the parent ran and the sub-handler's own criteria hold, incl. "the field changed"
+        exp = sub_expected(parent, accepted, sub_state)
+        if called != exp:
+            ctx.fail('sub-handlers invoked <> sub-handlers whose declared criteria hold (incl. "the field actually changed")',
+                     case, observed=called, expected=exp, sig='sub-invoked')
+    return cases
+
+
+def sub_tie(ctx: fw.Ctx) -> None:
+    loop = asyncio.new_event_loop()
+    cases: list[fw.Case] = []
+    try:
+        for k, sc in enumerate(sub_scenarios()):
+            try:
+                cases += sub_case(ctx, loop, sc)
+            except Exception as e:
+                ctx.correspondence_break('sub:driver', {'error': repr(e)[:400], 'scenario': sc})
+                break
+            if k == 1:
+                ctx.sample({'sweep': 'sub', 'parent': sc['parent'], 'body_spec': sc['body']['spec'],
+                            'handled_spec': (sc['handled'] or {}).get('spec')}, limit=10)
+    finally:
+        loop.close()
+    ctx.differential('sub', HEADER, cases, shard=150)
+
+
 E2E_KINDS = ('create', 'update', 'delete_opt', 'delete', 'resume', 'resume_del', 'field', 'event', 'daemon', 'timer')
 
 
@@ -1642,6 +1866,12 @@ def replay(ctx: fw.Ctx, body: dict) -> bool:
     c = body.get('case') or {}
     if 'state' in c and 'decls' in c:
         run_case(ctx, c['decls'], c['state'], tuple(c.get('excluded', ())))
+    elif 'parent' in c and 'scenario' in c:
+        loop = asyncio.new_event_loop()
+        try:
+            sub_case(ctx, loop, {'parent': c['parent'], **c['scenario']})
+        finally:
+            loop.close()
     elif 'body' in c and 'decls' in c:
         loop = asyncio.new_event_loop()
         try:
